@@ -14,6 +14,7 @@ import (
 	"os"
 	"path/filepath"
 	"regexp"
+	"runtime"
 	"runtime/debug"
 	"sort"
 	"strconv"
@@ -464,6 +465,48 @@ func (h *HeldRing) check() (changed []string) {
 		if string(h.live[i]) != string(h.copy[i]) {
 			changed = append(changed, h.tag[i])
 			h.copy[i] = append([]byte{}, h.live[i]...)
+		}
+	}
+	return
+}
+
+// LibLockWaiters inspects the stacks of all goroutines and returns, for every goroutine that has
+// been parked on a sync lock for at least a minute with a frame of the given package on its
+// stack, the first such frame's function name and the goroutine's stack. A watchdog uses it to
+// tell a deadlock inside the library (a witness: who waits where) from a run that is merely slow.
+func LibLockWaiters(pkg string) (funcs []string, stacks []string) {
+	buf := make([]byte, 1<<20)
+	for {
+		n := runtime.Stack(buf, true)
+		if n < len(buf) {
+			buf = buf[:n]
+			break
+		}
+		buf = make([]byte, 2*len(buf))
+	}
+	for _, g := range strings.Split(string(buf), "\n\n") {
+		nl := strings.IndexByte(g, '\n')
+		if nl < 0 {
+			continue
+		}
+		head := g[:nl]
+		if !(strings.Contains(head, "[sync.Mutex.Lock") || strings.Contains(head, "[sync.RWMutex") || strings.Contains(head, "[semacquire")) || !strings.Contains(head, "minutes") {
+			continue
+		}
+		for _, line := range strings.Split(g[nl+1:], "\n") {
+			if strings.HasPrefix(line, "\t") || !strings.Contains(line, pkg) {
+				continue
+			}
+			fn := line
+			if i := strings.LastIndex(fn, "("); i > 0 {
+				fn = fn[:i]
+			}
+			if i := strings.LastIndex(fn, "/"); i >= 0 {
+				fn = fn[i+1:]
+			}
+			funcs = append(funcs, fn)
+			stacks = append(stacks, g)
+			break
 		}
 	}
 	return
